@@ -235,7 +235,7 @@ impl Check for ExtractCheck {
             if every || k + 1 == n {
                 match catch_op(|| check_extraction(&mut s, kind, &mut rng, &mut out, k)) {
                     Err(p) => {
-                        if p.loc.contains("/verif/sim/") {
+                        if p.is_harness() {
                             panic!("harness panic: {} at {}", p.msg, p.loc);
                         }
                         out.violations.push(panic_violation("C06", "extraction_succeeds", &p, k));
